@@ -247,7 +247,7 @@ func TestVerifC17Block(t *testing.T) {
 	defer r.Flush()
 	depth := 4
 	if ev.Thorough() {
-		depth = 5
+		depth = 9
 	}
 	r.Rule(fmt.Sprintf("all sequences of length <=%d over {getOne, blockLast (Block of the id the latest getOne returned), clock+=ttl-1s, clock+=2s} on two vSwitches with ttl 10m (virtual clock drives the real LRUExpireCache); oracle: a getOne started after Block(id) and before that cache entry's expiry never returns id; after expiry the cloud's answer is used again", depth))
 	ops := []string{"get", "block", "t-1", "t+2"}
@@ -336,7 +336,7 @@ func TestVerifC17Concurrent(t *testing.T) {
 	defer r.Flush()
 	pb := 2
 	if ev.Thorough() {
-		pb = 3
+		pb = 6
 	}
 	r.Rule(fmt.Sprintf("3 threads on one SwitchPool and ONE shared candidate slice: T1 GetOne; T2 GetOne then Block(its result); T3 Block(a) directly; afterwards a fresh GetOne; policies {ordered, most, random}; cache empty (single-flight fill in flight) or pre-filled; all interleavings with <=%d preemptions (+1 order deviation for random) with happens-before state caching; oracle: results from the list/zone/free>0, shared slice unchanged at the end, a GetOne started after a completed Block(id) never returns id (ttl not reached), no deadlock/panic", pb))
 	for _, policy := range []SelectionPolicy{VSwitchSelectionPolicyOrdered, VSwitchSelectionPolicyMost, VSwitchSelectionPolicyRandom} {
